@@ -8,7 +8,7 @@ from contracts import absenv as A
 from contracts import envs as E
 
 LEVEL = "proof"
-CONFIG_BOUND = "signatures enumerated: 3 synthetic + the real (state, timestep, action) signature of all 23 environment classes; values unbounded"
+CONFIG_BOUND = "signatures enumerated: 3 synthetic + the real (state, timestep, action) signature of the environment classes (quick: 21, PacMan and MMST signatures in the thorough tier only because of their size); values unbounded"
 NOT_VERIFIED = ["that threefry realises the key-tree idealisation (distinct children); jit/vmap/scan agreement (JAX meta-theory)"]
 ASSUMPTIONS = ["the wrapped environment is any pair of deterministic functions with the given signature (uninterpreted functions)",
                "jax.random.split is a deterministic function of its key (uninterpreted); distinctness of successive reset keys holds in "
@@ -85,40 +85,56 @@ def run_sig(ctx, sig, kind):
                   use_stubs=False, selfcheck=False, merge_over=8)
 
 
-KEY_OK = {"random_split", "random_fold_in", "random_wrap", "random_unwrap", "slice", "squeeze", "reshape", "select_n", "cond", "pjit",
-          "broadcast_in_dim", "concatenate", "gather", "dynamic_slice", "convert_element_type", "copy", "copy_p", "scan", "while",
-          "custom_jvp_call", "closed_call", "expand_dims", "transpose", "dynamic_update_slice", "scatter", "iota", "eq", "lt", "add",
-          "ne", "and", "or", "not", "ge", "gt", "le", "sub", "clamp", "stop_gradient"}
-
-
-def _slice_prims(fn, args, pick):
-    """primitives in the backward slice of the output leaf selected by `pick` (pe.dce_jaxpr handles nested control flow)"""
-    from jxv.core import _prims
-    cj, shape = jax.make_jaxpr(fn, return_shape=True)(*args)
-    leaves = jax.tree_util.tree_flatten_with_path(shape)[0]
-    used = [pick(jax.tree_util.keystr(p)) for p, _ in leaves]
-    assert sum(used) == 1, [jax.tree_util.keystr(p) for p, _ in leaves]
-    jaxpr, used_in = pe.dce_jaxpr(cj.jaxpr, used, instantiate=False)
-    return _prims(jaxpr), used_in, jaxpr
+def _key_derived(t, key_vars):
+    """is the integer term t built from the input key variables through split / fold_in / selection only?
+    returns (derived, mentions an input key variable)"""
+    import z3
+    if z3.is_const(t) and t.decl().kind() == z3.Z3_OP_UNINTERPRETED:
+        return (str(t) in key_vars), (str(t) in key_vars)
+    if z3.is_app_of(t, z3.Z3_OP_ITE):
+        a, b = _key_derived(t.arg(1), key_vars), _key_derived(t.arg(2), key_vars)   # the condition may be anything
+        return a[0] and b[0], a[1] and b[1]
+    if z3.is_app(t) and t.decl().kind() == z3.Z3_OP_UNINTERPRETED and (t.decl().name().startswith("split[") or t.decl().name().startswith("fold_in")):
+        a, b = _key_derived(t.arg(0), key_vars), _key_derived(t.arg(1), key_vars)   # fold_in's data argument may be anything
+        return a[0] and b[0], a[1] or b[1]
+    return False, False
 
 
 def run_keys(ctx, name, cfg):
-    """freshness: the key stored in the state is derived from the incoming key by split/fold_in/identity only, and depends on it"""
+    """freshness: the key stored in the state is derived from the incoming key by split / fold_in / selection only (the selection
+    conditions may depend on data), and every selected alternative depends on the incoming key"""
+    from jxv import core
+    from jxv import symeval as S
     env = E.ALL()[name][cfg]()
     state, ts, a = E.example(env)
     key = jax.random.PRNGKey(0)
-    pick = lambda p: p in ("[0].key",)
-    prims, used_in, _ = _slice_prims(env.reset, (key,), pick)
-    arith = sorted(p for p in prims if p not in KEY_OK)
-    ctx.structural(f"{name}.reset@{cfg}/C13.state_key_derived_from_input_key", used_in[0] and not arith, "jaxpr dataflow (pe.dce_jaxpr)",
-                   detail={"depends_on_input_key": bool(used_in[0]), "non_key_primitives_in_slice": arith}, targets=[type(env).reset])
-    flat_state = jax.tree_util.tree_flatten_with_path((state, a))[0]
-    prims, used_in, _ = _slice_prims(env.step, (state, a), pick)
-    key_idx = [i for i, (p, _) in enumerate(flat_state) if jax.tree_util.keystr(p) == "[0].key"]
-    arith = sorted(p for p in prims if p not in KEY_OK)
-    dep = all(used_in[i] for i in key_idx)
-    ctx.structural(f"{name}.step@{cfg}/C13.state_key_derived_from_state_key", dep and not arith, "jaxpr dataflow (pe.dce_jaxpr)",
-                   detail={"depends_on_state_key": bool(dep), "non_key_primitives_in_slice": arith}, targets=[type(env).step])
+
+    def judge(title, terms, key_vars, target):
+        bad = []
+        for t in terms:
+            if S.is_c(t):
+                bad.append("constant " + str(t))
+                continue
+            d, m = _key_derived(t, key_vars)
+            if not (d and m):
+                bad.append(str(t)[:160])
+        ctx.structural(title, not bad, "Engine J term walk (key terms are split/fold_in/ite over the input key)", detail={"offending_terms": bad[:3]} if bad else None,
+                       targets=[target], witness={"offending_terms": bad[:3]} if bad else None)
+
+    sym, ins, out = core.symbolic_outputs(lambda k: env.reset(k)[0].key, (key,), while_bound=4)
+    kv = {str(x) for x in ins[0].reshape(-1)}
+    judge(f"{name}.reset@{cfg}/C13.state_key_derived_from_input_key", list(out.reshape(-1)), kv, type(env).reset)
+    sym, ins, out = core.symbolic_outputs(lambda s, act: env.step(s, act)[0].key, (state, a), while_bound=12)
+    kv = {str(x) for x in ins[0].key.reshape(-1)}
+    judge(f"{name}.step@{cfg}/C13.state_key_derived_from_state_key", list(out.reshape(-1)), kv, type(env).step)
+
+
+def _sig_size(name, cfg):
+    st, ts, a = A.real_signature(E.ALL()[name][cfg]())
+    return sum(int(x.size) for x in jax.tree_util.tree_leaves((st, ts)))
+
+
+BIG = {"PacMan", "MMST"}   # signatures with > 4000 scalars: thorough tier only (pure cost; the proof is signature-generic)
 
 
 def tasks(tier):
@@ -127,7 +143,8 @@ def tasks(tier):
         out[f"syn:{sig}"] = (run_sig, {"sig": sig, "kind": "synthetic"})
     for name in E.QUICK:
         cfg = E.QUICK[name][0]
-        out[f"sig:{name}@{cfg}"] = (run_sig, {"sig": f"{name}@{cfg}", "kind": "real"})
+        if tier == "thorough" or name not in BIG:
+            out[f"sig:{name}@{cfg}"] = (run_sig, {"sig": f"{name}@{cfg}", "kind": "real"})
         out[f"keys:{name}@{cfg}"] = (run_keys, {"name": name, "cfg": cfg})
     return out
 
